@@ -53,3 +53,10 @@ Proof.
   - rewrite Z.min_r by lia. unfold len in *.
     rewrite !firstn_all2; try reflexivity; lia.
 Qed.
+
+(* struct.pack fields (total; Python raises struct.error outside the field's range) *)
+Definition pack_u8 (n : Z) : list Z := [n].
+Definition pack_be16 (n : Z) : list Z := [n / 256; n mod 256].
+Definition pack_le16 (n : Z) : list Z := [n mod 256; n / 256].
+Definition pack_le32 (n : Z) : list Z := [n mod 256; (n / 256) mod 256; (n / 65536) mod 256; (n / 16777216) mod 256].
+Definition pack_be32 (n : Z) : list Z := [(n / 16777216) mod 256; (n / 65536) mod 256; (n / 256) mod 256; n mod 256].
